@@ -3,7 +3,7 @@
    NV.Bam.Decode (io/reader/record.rs, record/codec/decoder*.rs, slices of record_ref.rs),
    bin = NV.Index.Bins.reg2bin 14 5 (shared with C17). *)
 From Coq Require Import List NArith ZArith Bool Lia ZifyBool ZifyNat ZifyN.
-From NV Require Import Index.Bins Bam.Record Bam.Encode Bam.Decode Bam.Lazy Bam.CodecProofs Bam.AuxProofs Bam.LazyProofs Bam.LazyCigarProofs Bam.LazyDataProofs Bam.File Bam.FileProofs Bam.FileBgzf Bam.FileBgzfProofs Bam.FileSchedProofs.
+From NV Require Import Index.Bins Bam.Record Bam.Encode Bam.Decode Bam.Lazy Bam.CodecProofs Bam.AuxProofs Bam.LazyProofs Bam.LazyCigarProofs Bam.LazyDataProofs Bam.LazySwitchProofs Bam.File Bam.FileProofs Bam.FileBgzf Bam.FileBgzfProofs Bam.FileSchedProofs.
 From NV Require Sam.Header Sam.HeaderProofs Sam.BamHeader Bgzf.Frame Bgzf.Writer Bgzf.Reader Bgzf.Inflate Io.Source Io.ReadExactProofs Io.Run.
 Import ListNotations.
 Open Scope N_scope.
@@ -209,12 +209,14 @@ Print Assumptions c05_lazy_view.
    [dt] is the eager record's data whenever no CG field was consumed (no CG field, or the stored
    CIGAR is not the kSmN placeholder); when it was, the eager data is [dt] without that field
    (resolve = Data::remove): that remaining difference is the recorded finding
-   lazy-data-retains-cg-after-resolve. *)
+   lazy-data-retains-cg-after-resolve.  [lzp_data_sw false] is the view of the unrepaired tree (every
+   raw field); the statement through the behaviour switch NV.Bam.Lazy.cg_repaired is
+   c05_lazy_data_switch below. *)
 Theorem c05_lazy_data_eq_eager :
   forall body r,
     validate body = Ok tt -> decode_body body = Ok r ->
     exists cig dt,
-      lzp_data body = Some (dt, false) /\
+      lzp_data_sw false body = Some (dt, false) /\
       chunk_ops (lz_cigar_raw body) = Ok cig /\
       resolve (r_seq r) cig dt = Ok (r_cigar r, r_data r) /\
       (forall t, data_get (dt, false) t = option_map Ok (find_tag t dt)) /\
@@ -286,7 +288,8 @@ Example c05_example_lazy_data_retains_cg :
   let body := [255;255;255;255; 255;255;255;255; 2; 255; 72;18; 2;0; 4;0; 2;0;0;0; 255;255;255;255;
                255;255;255;255; 0;0;0;0; 113;0; 36;0;0;0; 83;0;0;0; 18; 255;255;
                78;77;67;1; 67;71;66;73; 1;0;0;0; 32;0;0;0] in
-  lzp_data body = Some ([((78, 77), VNum tyC 1%Z); (CG, VArr tyI [32%Z])], false) /\
+  lzp_data_sw false body = Some ([((78, 77), VNum tyC 1%Z); (CG, VArr tyI [32%Z])], false) /\
+  lzp_data_sw true body = Some ([((78, 77), VNum tyC 1%Z)], false) /\ cg_branch body = true /\
   lzp_seq_get body 1 = Some (Some 67) /\ lzp_seq_get body 2 = Some None.
 Proof. vm_compute. repeat split; reflexivity. Qed.
 
@@ -357,6 +360,60 @@ Example c05_example_reject :
   encode 1 (mkRecord None 0 None (Some 2147483650) None [] None None 0%Z [] [] []) = Err InvalidInput /\
   encode 1 (mkRecord None 0 None None None [(2, 268435456)] None None 0%Z [] [] []) = Err InvalidInput.
 Proof. split; vm_compute; reflexivity. Qed.
+
+(* ------------------------------------------------------------------------------------------
+   The lazy data view THROUGH THE BEHAVIOUR SWITCH NV.Bam.Lazy.cg_repaired (false = the tree as it
+   is: data() lists the CG field that cigar() resolved; true = the repair: Data::iter()/get() skip CG
+   when cigar() took the CG branch).  Proved for both values; flipping the one definition changes
+   which disjunct of the hypothesis holds.  [dt] is the raw field list; "CG, if present, is the last
+   field" is what every writer produces (encoder.rs appends it).  Then Data::iter() of the lazy
+   record yields exactly the eager record's data - unconditionally once cg_repaired = true, and
+   today whenever cigar() did not take the CG branch. *)
+Theorem c05_lazy_data_switch :
+  forall body r dt,
+    validate body = Ok tt -> decode_body body = Ok r ->
+    lzp_data_sw false body = Some (dt, false) ->
+    (forall a v b, dt = a ++ (CG, v) :: b -> b = []) ->
+    cg_repaired = true \/ cg_branch body = false ->
+    lzp_data body = Some (r_data r, false).
+Proof. intros body r dt Hv Hd Hraw Hlast Hsw. exact (lazy_data_switch body r dt Hv Hd Hraw Hlast cg_repaired Hsw). Qed.
+Print Assumptions c05_lazy_data_switch.
+
+(* Cigar::len() / is_empty() of cigar(): the number of eagerly decoded operations (also through the
+   CG branch), and no panic on any validated body *)
+Theorem c05_lazy_cigar_len :
+  (forall body r, validate body = Ok tt -> decode_body body = Ok r ->
+     lzp_cigar_len body = Some (lenN (r_cigar r), lenN (r_cigar r) =? 0)) /\
+  (forall body, validate body = Ok tt -> exists x, lzp_cigar_len body = Some x).
+Proof. split; [exact lazy_cigar_len_eq|exact lazy_cigar_len_no_panic]. Qed.
+Print Assumptions c05_lazy_cigar_len.
+
+(* RecordBuf::try_from_alignment_record(header, &lazy record): no panic, no error, and the owned
+   record is the eager decode with the data the lazy view lists (Data::insert finds no duplicate)... *)
+Theorem c05_lazy_convert :
+  forall body r, validate body = Ok tt -> decode_body body = Ok r ->
+    exists d, lzp_data body = Some (d, false) /\
+      lazy_convert body =
+        Some (Ok (mkRecord (r_name r) (r_flags r) (r_rid r) (r_pos r) (r_mapq r) (r_cigar r)
+                           (r_mrid r) (r_mpos r) (r_tlen r) (r_seq r) (r_qual r) d)).
+Proof. intros body r. exact (lazy_convert_eq cg_repaired body r). Qed.
+Print Assumptions c05_lazy_convert.
+
+(* ... hence equal to the eager decode under the hypotheses of c05_lazy_data_switch *)
+Theorem c05_lazy_convert_eq_eager :
+  forall body r dt,
+    validate body = Ok tt -> decode_body body = Ok r ->
+    lzp_data_sw false body = Some (dt, false) ->
+    (forall a v b, dt = a ++ (CG, v) :: b -> b = []) ->
+    cg_repaired = true \/ cg_branch body = false ->
+    lazy_convert body = Some (Ok r).
+Proof.
+  intros body r dt Hv Hd Hraw Hlast Hsw.
+  destruct (lazy_convert_eq cg_repaired body r Hv Hd) as (d & Hd1 & Hd2).
+  pose proof (lazy_data_switch body r dt Hv Hd Hraw Hlast cg_repaired Hsw) as H.
+  rewrite H in Hd1. injection Hd1 as Hd1. subst d. unfold lazy_convert. rewrite Hd2. destruct r. reflexivity.
+Qed.
+Print Assumptions c05_lazy_convert_eq_eager.
 
 (* ------------------------------------------------------------------------------------------
    FILE LEVEL.  A BAM file is BGZF( magic + header block + framed records ).  NV.Bam.File models
